@@ -38,7 +38,8 @@ META = {
              'extra keys per level drawn from random identifiers / one-edit near-misses of a field-name casing (kept only when they miss '
              'every field: decided independently when the separator-free lower-cased forms differ, by the Coq resolution model otherwise) / '
              'the tag key / non-identifier keys / the internal sentinel; histories of 1-3 loads (same document repeated, or two documents '
-             'interleaved).  Non-trivial = some level has an extra key; distinct = distinct (class spec, history).'),
+             'interleaved), in 40 % preceded by a dump of a hand-built instance; v1 fields with 1-3 alternative AliasPaths / 1-3 aliases; '
+             'entry points fromdict / fromlist / JSONWizard.from_dict / from_json.  Non-trivial = some level has an extra key; distinct = distinct (class spec, history).'),
     'trusted_base': ['model coq/model/FieldsUnknown.v transcribes loaders.py:676-760, v1/loaders.py:1045-1260, dumpers.py:470-480 '
                      '(validated by correspondence)'],
     'assumptions': ['a class has either the raise policy or CatchAll fields, not both (the property lists them as alternatives)',
@@ -94,16 +95,17 @@ def gen_level(r, engine, depth, counter, raise_, root):
         if engine == 'v1':
             x = r.random()
             if shared_top:
-                f['path'] = [top, gen_key(r, used)]
+                f['path'] = [[top, gen_key(r, used)]]
                 f['default'] = None       # the sub-path exists whenever the shared top-level key does (model assumption)
             elif x < 0.15:
-                f['aliases'] = [gen_key(r, used)] + ([gen_key(r, used)] if r.random() < 0.5 else [])
+                f['aliases'] = [gen_key(r, used) for _ in range(r.choice([1, 2, 2, 3]))]
             elif x < 0.27:
-                f['path'] = [gen_key(r, used), gen_key(r, used)]
+                # one or more ALTERNATIVE paths (AliasPath('a.b', 'x.y')) with different top-level keys
+                f['path'] = [[gen_key(r, used), gen_key(r, used)] for _ in range(r.choice([1, 2, 2, 3]))]
         spec['fields'].append(f)
     if shared_top and len(spec['fields']) < 2:
         spec['fields'].append({'name': gen_name(r, used), 'kind': 'int', 'default': None, 'aliases': None,
-                               'path': [top, gen_key(r, used)]})
+                               'path': [[top, gen_key(r, used)]]})
     if depth > 0 and r.random() < 0.7:
         spec['fields'].append({'name': gen_name(r, used), 'kind': 'nested', 'default': None, 'aliases': None, 'path': None,
                                'cls': gen_level(r, engine, depth - 1, counter, raise_, False)})
@@ -131,7 +133,7 @@ def ordered_fields(spec):
 def field_keys(spec, f):
     """v1: the top-level keys under which the field is looked up"""
     if f['path']:
-        return [f['path'][0]]
+        return list(dict.fromkeys(p[0] for p in f['path']))
     if f['aliases']:
         return list(f['aliases'])
     return [f['name']]
@@ -238,7 +240,14 @@ def gen_base_doc(r, spec):
             val = r.randint(0, 99)
         if spec['engine'] == 'v1':
             if f['path']:
-                doc.setdefault(f['path'][0], {})[f['path'][1]] = val
+                alts = list(f['path'])
+                first = r.choice(alts)
+                doc.setdefault(first[0], {})[first[1]] = val
+                if len(alts) > 1 and r.random() < 0.2:      # a second alternative too (the first in declaration order wins)
+                    other = r.choice([a for a in alts if a is not first])
+                    doc.setdefault(other[0], {})[other[1]] = (val if alts.index(other) > alts.index(first) else r.randint(100, 199))
+                    if alts.index(other) < alts.index(first):
+                        doc[other[0]][other[1]], doc[first[0]][first[1]] = val, r.randint(100, 199)
             elif f['aliases']:
                 ks = list(f['aliases'])
                 if len(ks) == 2 and r.random() < 0.25:
@@ -326,12 +335,15 @@ def ref_load(spec, doc, ms):
                 fields[c[1]] = value_of(by_name[c[1]], v)
     else:
         for f in spec['fields']:
+            if f['path']:
+                for p in f['path']:       # alternatives in declaration order
+                    if isinstance(doc.get(p[0]), dict) and p[1] in doc[p[0]]:
+                        fields[f['name']] = value_of(f, doc[p[0]][p[1]])
+                        break
+                continue
             for k in field_keys(spec, f):
                 if k in doc:
-                    v = doc[k]
-                    if f['path']:
-                        v = v[f['path'][1]]
-                    fields[f['name']] = value_of(f, v)
+                    fields[f['name']] = value_of(f, doc[k])
                     break
         if unknown and spec['raise'] and not spec['catch']:
             raise RefError(spec['name'], sorted(unknown))
@@ -569,8 +581,10 @@ def parse_unknown(s):
     return {'err': 'UnknownKeysError', 'class_name': cn, 'unknown_keys': sorted(bytes.fromhex(x).decode() for x in ks.split(','))}
 
 
-def model_view(out, spec, child_views):
-    """instance view from the model's kwargs (one level); child_views: field name -> view of the nested level"""
+def model_view(out, spec, child_views, doc=None):
+    """instance view from the model's kwargs (one level); child_views: field name -> view of the nested level;
+    doc: the loaded document of this level (a path field's conversion extracts the sub-key of the first
+    alternative whose top-level key is present)"""
     kw = out['ok']
     v = {'cls': spec['name'], 'fields': {}, 'catch': None}
     for f in spec['fields']:
@@ -580,7 +594,8 @@ def model_view(out, spec, child_views):
                 v['fields'][f['name']] = child_views.get(f['name'], {'bad': raw})
             elif f['path'] and spec['engine'] == 'v1':
                 try:
-                    v['fields'][f['name']] = str(json.loads(raw)[f['path'][1]])
+                    p0 = next(p for p in f['path'] if doc is not None and p[0] in doc)
+                    v['fields'][f['name']] = str(json.loads(raw)[p0[1]])
                 except Exception:
                     v['fields'][f['name']] = {'bad': raw}
             else:
@@ -630,7 +645,9 @@ def build_cases(ctx):
             d2 = add_extras(r, spec, gen_base_doc(r, spec), pending, stats)
             loads = r.choice([[d1, d2, d1], [d2, d1], [d1, base, d1]])
             hist = 'mixed%d' % len(loads)
-        cases.append({'cls': spec, 'loads': loads, 'hist': hist, 'extra_kinds': stats})
+        cases.append({'cls': spec, 'loads': loads, 'hist': hist, 'extra_kinds': stats,
+                      'pre': ('dump' if r.random() < 0.4 else None),
+                      'entry': r.choice(['fromdict', 'fromdict', 'jsonwizard', 'from_json', 'fromlist'])})
     return cases, pending
 
 
@@ -659,7 +676,7 @@ def run(ctx):
         c['loads'] = [drop_known_extras(c['cls'], d, ms) for d in c['loads']]
 
     # ---- implementation ------------------------------------------------------------------------
-    impl = ctx.impl('c10', {'cases': [{'cls': c['cls'], 'loads': c['loads']} for c in cases],
+    impl = ctx.impl('c10', {'cases': [{'cls': c['cls'], 'loads': c['loads'], 'pre': c['pre'], 'entry': c['entry']} for c in cases],
                             'witness': [{'kind': 'F19'}, {'kind': 'F41'}]})
     w19, w22 = impl['witness']
     resolved = set()     # findings whose witness no longer fails: the faithful (defective) model is not compared in their region
@@ -727,7 +744,8 @@ def run(ctx):
         ctx.hist('engine/policy', '%s/%s/%s%s' % (spec['engine'], 'raise' if spec['raise'] else 'ignore',
                                                   ('catch_default' if spec['catch']['default'] else 'catch') if spec['catch'] else 'nocatch',
                                                   '/tag' if spec['tag'] else ''))
-        ctx.hist('history', c['hist'])
+        ctx.hist('history', ('dump-first+' if c['pre'] else '') + c['hist'])
+        ctx.hist('entry_point', c['entry'])
         ctx.hist('depth', 2 if any(f['kind'] == 'nested' for f in spec['fields']) else 1)
         for k in c['extra_kinds']:
             ctx.hist('extra_key_kind', k)
@@ -745,7 +763,7 @@ def run(ctx):
                 else:
                     ctx.violation('%s engine, class %s, load %d of the history, document %s: %s' %
                                   (spec['engine'], spec['name'], j + 1, json.dumps(d)[:200], bad),
-                                  {'kind': 'case', 'cls': spec, 'loads': c['loads'], 'index': j, 'model_says': [[list(k[0]), k[1], v] for k, v in ms.items() if k[0] == tuple(ordered_fields(spec))]})
+                                  {'kind': 'case', 'cls': spec, 'loads': c['loads'], 'index': j, 'pre': c['pre'], 'entry': c['entry'], 'model_says': [[list(k[0]), k[1], v] for k, v in ms.items() if k[0] == tuple(ordered_fields(spec))]})
             if model_ok and region_of(spec, d, ms) in resolved:
                 ctx.hist('resolved_region_direct_predicate_only', region_of(spec, d, ms))
             elif model_ok:
@@ -756,8 +774,8 @@ def run(ctx):
                     for fname, per in child_out.get(ci, {}).items():
                         if j in per and per[j].startswith('O:'):
                             fspec = next(f['cls'] for f in spec['fields'] if f['name'] == fname)
-                            cviews[fname] = model_view(parse_out(per[j]), fspec, {})
-                    mo = {'ok': model_view(mo, spec, cviews)}
+                            cviews[fname] = model_view(parse_out(per[j]), fspec, {}, prepared[ci][1][j].get(fname))
+                    mo = {'ok': model_view(mo, spec, cviews, d)}
                 io = impl_compare_view(res, spec)
                 if 'ok' in mo and 'ok' in io:
                     same = json.dumps(mo, sort_keys=True) == json.dumps(io, sort_keys=True)
@@ -776,7 +794,8 @@ def run(ctx):
 def replay(ctx, obj):
     if obj.get('kind') == 'case':
         ms = {(tuple(a), b): c for a, b, c in obj.get('model_says', [])}
-        results = ctx.impl('c10', {'cases': [{'cls': obj['cls'], 'loads': obj['loads']}]})['cases'][0]
+        results = ctx.impl('c10', {'cases': [{'cls': obj['cls'], 'loads': obj['loads'], 'pre': obj.get('pre'),
+                                              'entry': obj.get('entry', 'fromdict')}]})['cases'][0]
         ok = True
         for j, (d, res) in enumerate(zip(obj['loads'], results)):
             bad = direct_predicate(obj['cls'], d, res, ms)
